@@ -7,7 +7,7 @@ rows = []
 for d in sorted(os.listdir(sd)):
     p = os.path.join(sd, d)
     if not os.path.isdir(p): continue
-    prop = d.split("-")[0]
+    prop = d.split("-")[0][:3]
     notes = open(os.path.join(p, "notes.md")).read() if os.path.exists(os.path.join(p, "notes.md")) else ""
     res = open(os.path.join(p, "result.txt")).read() if os.path.exists(os.path.join(p, "result.txt")) else ""
     old = json.load(open(os.path.join(p, "meta.json"))) if os.path.exists(os.path.join(p, "meta.json")) else {}
